@@ -187,17 +187,19 @@ inductive Outcome (α : Type) where
   | panic
 deriving DecidableEq, Repr
 
-/-- the loop of `slices.BinarySearchFunc`; `cmpAt h` not `ok` models a failed or panicking `readKey` -/
-def bsLoop (cmpAt : Nat → Outcome Ordering) : (fuel lo hi : Nat) → Outcome Nat
-  | 0, lo, _ => .ok lo
-  | fuel + 1, lo, hi =>
+/-- the loop of `slices.BinarySearchFunc` with the comparison callback of `Search`: a failed `readKey` makes the
+callback remember the error and return 0 ("found": the search continues to the left, `bad` = `searchErr != nil`);
+a panicking `readKey` unwinds -/
+def bsLoop (cmpAt : Nat → Outcome Ordering) : (fuel lo hi : Nat) → (bad : Bool) → Outcome (Nat × Bool)
+  | 0, lo, _, bad => .ok (lo, bad)
+  | fuel + 1, lo, hi, bad =>
     if lo < hi then
       match cmpAt ((lo + hi) / 2) with
-      | .err => .err
       | .panic => .panic
-      | .ok .lt => bsLoop cmpAt fuel ((lo + hi) / 2 + 1) hi
-      | .ok _ => bsLoop cmpAt fuel lo ((lo + hi) / 2)
-    else .ok lo
+      | .err => bsLoop cmpAt fuel lo ((lo + hi) / 2) true
+      | .ok .lt => bsLoop cmpAt fuel ((lo + hi) / 2 + 1) hi bad
+      | .ok _ => bsLoop cmpAt fuel lo ((lo + hi) / 2) bad
+    else .ok (lo, bad)
 
 inductive SearchRes where
   | range (start : Nat) (stop : Option Nat)   -- `stop = none` is `math.MaxInt64`
@@ -215,14 +217,16 @@ def cmpKey (target : Bytes) : Outcome Bytes → Outcome Ordering
 def search (offsets : List Nat) (readKey : Nat → Outcome Bytes) (target : Bytes) : SearchRes :=
   if offsets.isEmpty then .range 0 none else
   let cmpAt := fun i => cmpKey target (readKey (offsets.getD i 0))
-  match bsLoop cmpAt offsets.length 0 offsets.length with
+  match bsLoop cmpAt offsets.length 0 offsets.length false with
   | .err => .err
   | .panic => .panic
-  | .ok i =>
+  | .ok (i, bad) =>
+    -- `BinarySearchFunc` probes the result once more for exactness before `Search` looks at `searchErr`
     match (if i < offsets.length then cmpAt i else .ok .lt) with
     | .err => .err
     | .panic => .panic
     | .ok o =>
+      if bad then .err else
       let found := if o = .eq then i else if 0 < i then i - 1 else i
       .range (offsets.getD found 0)
         (if found + 1 = offsets.length then none else some (offsets.getD (found + 1) 0))
